@@ -352,10 +352,25 @@ def main():
     elif ok_coq and not ct_replay:
         ok_r, rlog = run_harness(prop, tier, seed, work, replay)
         if not ok_r:
-            p = write_replay("harness_run", {"kind": "correspondence-broken",
-                                             "obligation": "harness run (implementation under test crashed the runner)",
-                                             "log_tail": rlog[-4000:]})
-            violations.append((p, "no-failing-input-found"))
+            # the harness records the input it is observing (inflight_ctx.json + inflight.json): when the
+            # implementation kills the process (stack overflow, abort) that input is the failing input
+            inflight = {}
+            for n in ("inflight_ctx.json", "inflight.json"):
+                try:
+                    inflight.update(json.load(open(os.path.join(work, n))))
+                except Exception:
+                    pass
+            if inflight.get("registry") is not None:
+                p = write_replay("crash", {"kind": "crash", "property": prop,
+                                           "what": "the implementation under test killed the harness process (stack overflow / "
+                                                   "abort: not a panic) while this input was being observed",
+                                           "case": inflight, "input": inflight, "log_tail": rlog[-2000:]})
+                violations.append((p, ""))
+            else:
+                p = write_replay("harness_run", {"kind": "correspondence-broken",
+                                                 "obligation": "harness run (implementation under test crashed the runner)",
+                                                 "log_tail": rlog[-4000:]})
+                violations.append((p, "no-failing-input-found"))
         else:
             meta = json.load(open(os.path.join(work, "meta.json")))
             cases = [l for l in open(os.path.join(work, "cases.jsonl"), encoding="utf-8")]
